@@ -38,6 +38,12 @@ pub fn generate<W: Write>(c: &mut Cases<W>, rng: &mut Rng, thorough: bool) {
     let nfiles = if thorough { 400 } else { 40 };
     let magic2 = 0x6723D4C4u32.to_le_bytes();
     let magic1 = 0x76324D4Cu32.to_le_bytes();
+    // the shortest strings: nothing at all, one to three bytes
+    one(c, &[], "empty");
+    for l in 1..4usize {
+        one(c, &vec![0u8; l], "shorter-than-a-magic");
+        one(c, &vec![0xC4u8; l], "shorter-than-a-magic");
+    }
     // short strings around the magic numbers
     let alphabet = [0u8, 1, 5, 6, 0xC4, 0xFF];
     for m in [&magic1[..], &magic2[..], &[0x4c, 0x4d, 0x32, 0x77][..]] {
